@@ -117,6 +117,16 @@ def fam_interop(rng, i, roles=ROLES):
     return {k: v for k, v in p.items() if not (isinstance(v, int) and v == 0 and k not in ("size", "bidi", "uni", "suni"))}
 
 
+def fixed_scenarios():
+    """scenarios that are part of every tier (regressions / findings reproduced on each run)"""
+    return [
+        # s2n-quic with a small max_mtu against a peer whose static send size is larger (no PMTUD): s2n-quic never
+        # declares max_udp_payload_size, the peer is entitled to its 1472-byte datagrams, s2n-quic discards them
+        {"role": "s2n-server", "seed": 876889137761, "delay_ms": 20, "bidi": 2, "uni": 1, "suni": 1, "size": 30000, "chunk": 3000,
+         "max_mtu": 1350, "q.max_send_udp": 1472, "q.max_idle_ms": 8000, "s.max_idle_ms": 8000, "deadline_ms": 60000},
+    ]
+
+
 # ---------------------------------------------------------------------------------------
 # oracle
 # ---------------------------------------------------------------------------------------
@@ -237,10 +247,38 @@ def o_c07(tr):
         s2n_reads = nb + (nu if role == "s2n-server" else ns)
         q_reads = nb + (ns if role == "s2n-server" else nu)
         if len(s_eof) != s2n_reads or len(q_eof) != q_reads:
+            over = oversize_for_s2n(tr)
+            if over:
+                n_over, limit, declared = over
+                bad.append(("e2e:c07:undeclared-max-udp-payload-size",
+                            f"s2n-quic (max_mtu={limit + 28}) discards UDP payloads above {limit} bytes but declared max_udp_payload_size={declared} "
+                            f"(parameter 0x03 {'absent' if declared == 65527 else 'present'}); quiche sent {n_over} larger datagrams that were delivered and never "
+                            f"processed; transfer incomplete: s2n-quic EOF on {len(s_eof)}/{s2n_reads} streams, quiche on {len(q_eof)}/{q_reads}; quiche closed: {cf}"))
+                return bad
             bad.append(("e2e:c07:eof-incomplete",
                         f"transfer incomplete at the end of the run: s2n-quic reached EOF on {len(s_eof)}/{s2n_reads} streams, "
                         f"quiche on {len(q_eof)}/{q_reads}; quiche closed: {cf}"))
     return bad
+
+
+def oversize_for_s2n(tr):
+    """datagrams quiche sent (and the network delivered) that are larger than what the s2n-quic endpoint can receive
+    (its max_mtu minus IPv4+UDP headers) although within the max_udp_payload_size it declared -> (count, limit, declared)"""
+    wires = tr.of("wire")
+    if not wires:
+        return None
+    role = tr.params.get("role", "s2n-server")
+    quiche_addr = wires[0].src if role == "s2n-server" else wires[0].dst
+    limit = int(tr.params.get("max_mtu", 0) or 1500) - 28
+    declared = 65527
+    try:
+        _, sb, _ = tp_blocks(tr)
+        if sb is not None:
+            declared = qp.parse_tp_block(sb).get("max_udp_payload_size", 65527)
+    except Exception:
+        pass
+    n = sum(1 for w in wires if w.src == quiche_addr and w.action in ("deliver", "dup") and limit < w.len <= declared)
+    return (n, limit, declared) if n else None
 
 
 def summarize(tr):
